@@ -54,6 +54,15 @@ Lemma notif_error_refuted :
   resp_correlated coerce_go zero_go run_echo ms_demo w_notif_error (snd (hdl w_notif_error)) = false.
 Proof. vm_compute. repeat split. Qed.
 
+(* a batch after >= 128 bytes of white space: isBatch says "single", the array fails to decode *)
+Definition w_window : input := mk_input false (Some (JArr [req_add [(L"id", JNum L"7")]])).
+Lemma batch_window_refuted :
+  grammar_ok w_window = true /\ dev_batch_window w_window = true /\
+  hdl w_window = ([], Some parse_error) /\
+  spc w_window = ([(L"add", [JNum L"1"; JNum L"2"])], Some (JArr [mk_result (JNum L"7") (JArr [JNum L"1"; JNum L"2"])])) /\
+  calls_once coerce_go zero_go run_echo ms_demo w_window (fst (hdl w_window)) = false.
+Proof. vm_compute. repeat split. Qed.
+
 (* positional = named needs the optional parameters to be a tail: "mid" = (a optional, b required) *)
 Definition m_mid : method := mk_method L"mid" [mk_param L"a" true TOptInt; mk_param L"b" false TInt].
 Lemma positional_eq_named_needed_lemma :
